@@ -40,10 +40,10 @@ func (s *Server) Definition(ctx context.Context, params *protocol.DefinitionPara
 		return nil, nil
 	}
 
-	resolved := s.getWorkspaceResolved(params.TextDocument.URI)
+	resolved, primaryPath := s.resolvedForDocument(params.TextDocument.URI)
 	currentPath := uriToPath(params.TextDocument.URI)
 
-	location := findDefinitionLocation(target, resolved, currentPath, journal)
+	location := findDefinitionLocation(target, resolved, primaryPath, currentPath, journal)
 	if location == nil {
 		return nil, nil
 	}
@@ -94,21 +94,21 @@ func findDefinitionTarget(journal *ast.Journal, pos protocol.Position) *definiti
 	return nil
 }
 
-func findDefinitionLocation(target *definitionTarget, resolved *include.ResolvedJournal, currentPath string, currentJournal *ast.Journal) *protocol.Location {
+func findDefinitionLocation(target *definitionTarget, resolved *include.ResolvedJournal, primaryPath, currentPath string, currentJournal *ast.Journal) *protocol.Location {
 	switch target.context {
 	case DefContextAccount:
-		return findAccountDefinitionResolved(target.name, resolved, currentPath, currentJournal)
+		return findAccountDefinitionResolved(target.name, resolved, primaryPath, currentPath, currentJournal)
 	case DefContextCommodity:
-		return findCommodityDefinitionResolved(target.name, resolved, currentPath, currentJournal)
+		return findCommodityDefinitionResolved(target.name, resolved, primaryPath, currentPath, currentJournal)
 	case DefContextPayee:
-		return findPayeeDefinitionResolved(target.name, resolved, currentPath, currentJournal)
+		return findPayeeDefinitionResolved(target.name, resolved, primaryPath, currentPath, currentJournal)
 	default:
 		return nil
 	}
 }
 
-func findAccountDefinitionResolved(name string, resolved *include.ResolvedJournal, currentPath string, currentJournal *ast.Journal) *protocol.Location {
-	journals := allJournalsWithPaths(resolved, currentPath, currentJournal)
+func findAccountDefinitionResolved(name string, resolved *include.ResolvedJournal, primaryPath, currentPath string, currentJournal *ast.Journal) *protocol.Location {
+	journals := allJournalsWithPaths(resolved, primaryPath, currentPath, currentJournal)
 
 	for _, filePath := range sortedJournalPaths(journals) {
 		journal := journals[filePath]
@@ -153,8 +153,8 @@ func findFirstAccountUsageResolved(name string, journals map[string]*ast.Journal
 	return earliest
 }
 
-func findCommodityDefinitionResolved(symbol string, resolved *include.ResolvedJournal, currentPath string, currentJournal *ast.Journal) *protocol.Location {
-	journals := allJournalsWithPaths(resolved, currentPath, currentJournal)
+func findCommodityDefinitionResolved(symbol string, resolved *include.ResolvedJournal, primaryPath, currentPath string, currentJournal *ast.Journal) *protocol.Location {
+	journals := allJournalsWithPaths(resolved, primaryPath, currentPath, currentJournal)
 
 	for _, filePath := range sortedJournalPaths(journals) {
 		journal := journals[filePath]
@@ -199,8 +199,8 @@ func findFirstCommodityUsageResolved(symbol string, journals map[string]*ast.Jou
 	return earliest
 }
 
-func findPayeeDefinitionResolved(payee string, resolved *include.ResolvedJournal, currentPath string, currentJournal *ast.Journal) *protocol.Location {
-	journals := allJournalsWithPaths(resolved, currentPath, currentJournal)
+func findPayeeDefinitionResolved(payee string, resolved *include.ResolvedJournal, primaryPath, currentPath string, currentJournal *ast.Journal) *protocol.Location {
+	journals := allJournalsWithPaths(resolved, primaryPath, currentPath, currentJournal)
 
 	var earliest *protocol.Location
 	var earliestDate *ast.Date
@@ -225,15 +225,17 @@ func findPayeeDefinitionResolved(payee string, resolved *include.ResolvedJournal
 	return earliest
 }
 
-func allJournalsWithPaths(resolved *include.ResolvedJournal, currentPath string, currentJournal *ast.Journal) map[string]*ast.Journal {
+func allJournalsWithPaths(resolved *include.ResolvedJournal, primaryPath, currentPath string, currentJournal *ast.Journal) map[string]*ast.Journal {
 	result := make(map[string]*ast.Journal)
 
 	if resolved != nil {
 		for path, journal := range resolved.Files {
 			result[path] = journal
 		}
-		if resolved.Primary != nil && currentPath != "" {
-			result[currentPath] = resolved.Primary
+		// primaryPath is the file resolved.Primary was parsed from: the workspace
+		// root journal for the workspace tree, the document itself otherwise.
+		if resolved.Primary != nil && primaryPath != "" {
+			result[primaryPath] = resolved.Primary
 		}
 	} else if currentJournal != nil && currentPath != "" {
 		result[currentPath] = currentJournal
